@@ -11,20 +11,29 @@
 //       recorded as environment lines (`rwait`).
 //
 // ops:   tests N | fork T fail | w T eintr | w T err E | w T st HEX | inj T K |
-//        real T PHASE (ACTION ARG)+ | run
+//        real T PHASE (ACTION ARG)+ | grp T G | cli | run
+//   grp T G : test T belongs to group "gG" (adjacent tests with the same name form a group)
+//   cli     : the run goes through CommandLineTestRunner with argv {"runner", "-p"} (the registry is NOT
+//             put into separate-process mode by the harness) and a real ConsoleTestOutput whose
+//             PlatformSpecificFPuts seam appends to a file shared by parent and children
 // observations after `> run`, per test in registry order:
 //   started T / forked T fail|ok|real / rwait T ... / starved T / consumed T n / conts T n /
 //   fail T <hex first line of the message> / ended T
-// then runcount, failures, overall, summary, phases (informational), deadline.
+//   inrunner T : the test's code was executed inside the runner process (it must never be: every test
+//                of a separate-process run is forked).  A real test then really performs its action
+//                in the runner (the runner dies -> `crash ...`), except `stop`, which would wedge the harness.
+// then runcount, failures, overall, summary, [exitcode, childtext T n] (cli), phases (informational), deadline.
 #include <errno.h>
 #include <fcntl.h>
 #include <sys/prctl.h>
+#include <sys/mman.h>
 #include "common.h"
 #include "CppUTest/TestHarness.h"
 #include "CppUTest/TestRegistry.h"
 #include "CppUTest/TestOutput.h"
 #include "CppUTest/TestResult.h"
 #include "CppUTest/TestPlugin.h"
+#include "CppUTest/CommandLineTestRunner.h"
 #include "CppUTest/PlatformSpecificFunctions.h"
 
 namespace {
@@ -47,9 +56,11 @@ struct TestSpec {
     int injected;
     pid_t pid;                       // real child, 0 when reaped / none
     int conts;
+    int group;
+    bool inRunner;
     std::vector<std::string> envLines, failLines;
     std::string forkLine;
-    TestSpec() : real(false), forkFails(false), next(0), starved(false), phase(PH_NONE), inject(0), injected(0), pid(0), conts(0) {}
+    TestSpec() : real(false), forkFails(false), next(0), starved(false), phase(PH_NONE), inject(0), injected(0), pid(0), conts(0), group(0), inRunner(false) {}
 };
 
 std::vector<TestSpec> g_tests;
@@ -59,6 +70,8 @@ bool g_in_child = false;             // true in a forked test child: nothing may
 volatile sig_atomic_t g_sigconts = 0;
 volatile sig_atomic_t g_deadline = 0;
 int g_marker_fd = -1;
+int g_console_fd = -1;               // cli mode: everything "printed to stdout" by parent and children
+bool g_cli = false;
 pid_t g_case_pid = 0;
 
 void flush_test_lines(int t) {
@@ -169,13 +182,21 @@ void marker(int phase) {
 }
 
 void act(int phase, UtestShell* test, TestResult* result) {
-    if (!g_in_child || g_cur < 0) return;
+    if (g_cur < 0) return;
     TestSpec& s = g_tests[(size_t) g_cur];
+    if (!g_in_child && !s.inRunner) {          // this test's code runs inside the runner process
+        s.inRunner = true;
+        vh::emit("inrunner %d", g_cur);
+        fflush(stdout);
+    }
     if (!s.real) return;
     marker(phase);
     if (s.phase != phase) return;
     for (size_t i = 0; i < s.actions.size(); i++) {
         const Action& a = s.actions[i];
+        // a stopped runner would wedge the harness: stop actions are not performed inside the runner
+        if (!g_in_child && (a.what == "stop" || (a.what == "signal" &&
+                (a.arg == SIGSTOP || a.arg == SIGTSTP || a.arg == SIGTTIN || a.arg == SIGTTOU)))) continue;
         if (a.what == "signal") {
             int sig = (int) a.arg;
             if (sig != SIGKILL && sig != SIGSTOP) signal(sig, SIG_DFL);
@@ -185,8 +206,9 @@ void act(int phase, UtestShell* test, TestResult* result) {
         else if (a.what == "exit") _exit((int) a.arg);
         else if (a.what == "stop") kill(getpid(), SIGSTOP);
         else if (a.what == "fail") {
-            if (test && result) result->addFailure(TestFailure(test, "plugin action failed"));
-            else FAIL("check failed in the child");
+            char msg[64]; snprintf(msg, sizeof msg, "childfailure-of-test-%d-", g_cur);
+            if (test && result) result->addFailure(TestFailure(test, msg));   // as MemoryLeakWarningPlugin does
+            else FAIL(msg);
         }
     }
 }
@@ -204,10 +226,10 @@ public:
 
 // ---------------------------------------------------------------- recording output
 
-class RecordingOutput : public StringBufferTestOutput {
+template <class Base> class Recording : public Base {
 public:
     void printCurrentTestStarted(const UtestShell& test) CPPUTEST_OVERRIDE {
-        StringBufferTestOutput::printCurrentTestStarted(test);
+        Base::printCurrentTestStarted(test);
         if (g_in_child) return;
         g_cur = -1;
         for (size_t k = 0; k < g_shells.size(); k++) if (&test == g_shells[k]) g_cur = (int) k;
@@ -215,7 +237,7 @@ public:
         vh::emit("started %d", g_cur);
     }
     void printCurrentTestEnded(const TestResult& res) CPPUTEST_OVERRIDE {
-        StringBufferTestOutput::printCurrentTestEnded(res);
+        Base::printCurrentTestEnded(res);
         if (g_in_child) return;
         if (g_cur >= 0) {
             g_tests[(size_t) g_cur].conts = (int) g_sigconts;
@@ -225,7 +247,7 @@ public:
         g_cur = -1;
     }
     void printFailure(const TestFailure& failure) CPPUTEST_OVERRIDE {
-        StringBufferTestOutput::printFailure(failure);
+        Base::printFailure(failure);
         if (g_in_child) return;
         std::string msg(failure.getMessage().asCharString());
         size_t nl = msg.find('\n');
@@ -239,6 +261,34 @@ public:
         else vh::emit("%s", line.c_str());
     }
 };
+typedef Recording<StringBufferTestOutput> RecordingOutput;
+
+// cli mode: the console output the runner creates itself, recorded, printing through the seam below
+class CliRunner : public CommandLineTestRunner {
+public:
+    CliRunner(int ac, const char* const* av, TestRegistry* r) : CommandLineTestRunner(ac, av, r) {}
+protected:
+    TestOutput* createConsoleOutput() CPPUTEST_OVERRIDE { return new Recording<ConsoleTestOutput>; }
+};
+
+extern "C" void seam_fputs(const char* str, PlatformSpecificFile) {
+    if (g_console_fd >= 0) { ssize_t w = write(g_console_fd, str, strlen(str)); (void) w; }
+}
+extern "C" void seam_flush(void) { }
+
+std::string read_console() {
+    std::string out; char buf[4096]; ssize_t r;
+    if (g_console_fd < 0) return out;
+    lseek(g_console_fd, 0, SEEK_SET);
+    while ((r = read(g_console_fd, buf, sizeof buf)) > 0) out.append(buf, (size_t) r);
+    return out;
+}
+
+size_t count_occurrences(const std::string& hay, const std::string& needle) {
+    size_t n = 0, pos = 0;
+    while ((pos = hay.find(needle, pos)) != std::string::npos) { n++; pos += needle.size(); }
+    return n;
+}
 
 int phase_of(const std::string& s) {
     for (int i = 0; i < 5; i++) if (s == PHASE_NAMES[i]) return i;
@@ -260,6 +310,13 @@ void run_registry() {
     int (*savedWait)(int, int*, int) = PlatformSpecificWaitPid;
     PlatformSpecificFork = seam_fork;
     PlatformSpecificWaitPid = seam_waitpid;
+    void (*savedFPuts)(const char*, PlatformSpecificFile) = PlatformSpecificFPuts;
+    void (*savedFlush)(void) = PlatformSpecificFlush;
+    if (g_cli) {
+        g_console_fd = memfd_create("c11console", 0);
+        PlatformSpecificFPuts = seam_fputs;
+        PlatformSpecificFlush = seam_flush;
+    }
     {
         RecordingOutput output;
         TestResult result(output);
@@ -268,8 +325,8 @@ void run_registry() {
         TestRegistry* savedRegistry = TestRegistry::getCurrentRegistry();
         registry.setCurrentRegistry(&registry);
         registry.installPlugin(&plugin);
-        registry.setRunTestsInSeperateProcess();
-        std::vector<std::string> names(n);
+        if (!g_cli) registry.setRunTestsInSeperateProcess();
+        std::vector<std::string> names(n), groups(n);
         g_shells.assign(n, (ExecFunctionTestShell*) 0);
         std::vector<ExecFunctionWithoutParameters*> bodies;
         for (size_t k = n; k-- > 0;) {            // addTest prepends: add in reverse so that test 0 runs first
@@ -278,20 +335,50 @@ void run_registry() {
             sh->testFunction_ = b; bodies.push_back(b);
             char nm[24]; snprintf(nm, sizeof nm, "t%lu", (unsigned long) k); names[k] = nm;
             sh->setTestName(names[k].c_str());
-            sh->setGroupName("sepproc");
+            snprintf(nm, sizeof nm, "g%d", g_tests[k].group); groups[k] = nm;
+            sh->setGroupName(groups[k].c_str());
             g_shells[k] = sh;
             registry.addTest(sh);
         }
-        registry.runAllTests(result);
-        alarm(0);
-        reap_all();
-        vh::emit("runcount %lu", (unsigned long) result.getRunCount());
-        vh::emit("failures %lu", (unsigned long) result.getFailureCount());
-        vh::emit("overall %s", result.isFailure() ? "fail" : "ok");
-        std::string out(output.getOutput().asCharString());
+        std::string out;
+        if (!g_cli) {
+            registry.runAllTests(result);
+            alarm(0);
+            reap_all();
+            vh::emit("runcount %lu", (unsigned long) result.getRunCount());
+            vh::emit("failures %lu", (unsigned long) result.getFailureCount());
+            vh::emit("overall %s", result.isFailure() ? "fail" : "ok");
+            out = output.getOutput().asCharString();
+        }
+        else {
+            const char* av[] = { "runner", "-p" };
+            int code;
+            {
+                CliRunner runner(2, av, &registry);
+                code = runner.runAllTestsMain();
+            }
+            alarm(0);
+            reap_all();
+            out = read_console();
+            // "Errors (F failures, T tests, R ran, ..." / "OK (T tests, R ran, ..."
+            unsigned long f = 0, t = 0, r = 0;
+            size_t pe = out.find("\nErrors ("), po = out.find("\nOK (");
+            if (pe != std::string::npos) sscanf(out.c_str() + pe, "\nErrors (%lu failures, %lu tests, %lu ran", &f, &t, &r);
+            else if (po != std::string::npos) sscanf(out.c_str() + po, "\nOK (%lu tests, %lu ran", &t, &r);
+            vh::emit("runcount %lu", r);
+            vh::emit("failures %lu", f);
+            vh::emit("overall %s", code != 0 ? "fail" : "ok");
+            vh::emit("exitcode %d", code);
+        }
         bool errs = out.find("\nErrors (") != std::string::npos;
         bool ok = out.find("\nOK (") != std::string::npos;
         vh::emit("summary %s", errs && !ok ? "errors" : ok && !errs ? "ok" : "unclear");
+        if (g_cli)
+            for (size_t k = 0; k < n; k++)
+                if (g_tests[k].real && g_tests[k].inject == 0 && !g_tests[k].forkFails) {
+                    char needle[64]; snprintf(needle, sizeof needle, "childfailure-of-test-%lu-", (unsigned long) k);
+                    vh::emit("childtext %lu %lu", (unsigned long) k, (unsigned long) count_occurrences(out, needle));
+                }
         if (g_deadline) vh::emit("deadline %d", (int) g_deadline);
         // markers written by the real children: which phases were entered, per test
         std::string marks; char buf[4096]; ssize_t r;
@@ -314,6 +401,9 @@ void run_registry() {
     }
     PlatformSpecificFork = savedFork;
     PlatformSpecificWaitPid = savedWait;
+    PlatformSpecificFPuts = savedFPuts;
+    PlatformSpecificFlush = savedFlush;
+    if (g_console_fd >= 0) { close(g_console_fd); g_console_fd = -1; }
     signal(SIGALRM, SIG_DFL);
 }
 
@@ -327,7 +417,11 @@ bool parse_t(const vh::Words& w, size_t& t) {
 void run_case(const vh::Case& c) {
     g_case_pid = getpid();
     g_tests.clear();
+    g_cli = false;
     bool ran = false;
+#ifdef VH_C11_NOFORK
+    vh::emit_op("nofork");      // this binary links the fork-less variant of UtestPlatform.cpp
+#endif
     for (size_t i = 0; i < c.ops.size(); i++) {
         const vh::Words& w = c.ops[i];
         size_t t = 0;
@@ -355,6 +449,13 @@ void run_case(const vh::Case& c) {
             s.real = true; s.phase = phase_of(w[2]); s.actions.clear();
             for (size_t k = 3; k + 1 < w.size(); k += 2) { Action a; a.what = w[k]; a.arg = atol(w[k + 1].c_str()); s.actions.push_back(a); }
             vh::emit_op(c.raw[i]); continue;
+        }
+        else if (w[0] == "grp" && w.size() == 3 && parse_t(w, t)) {
+            char* end = 0; unsigned long g = strtoul(w[2].c_str(), &end, 10);
+            if (end && !*end && g < 1000) { g_tests[t].group = (int) g; vh::emit_op(c.raw[i]); continue; }
+        }
+        else if (w[0] == "cli" && w.size() == 1 && !g_tests.empty() && !g_cli) {
+            g_cli = true; vh::emit_op("cli"); continue;
         }
         else if (w[0] == "run" && w.size() == 1 && !g_tests.empty()) {
             vh::emit_op("run");
